@@ -529,6 +529,38 @@ theorem nwuParseGo_pairwise (items : List (List MR)) :
   | cons it rest ih => intro prs acc h; exact ih _ _ (foldl_nwuAdd_pairwise _ _ h)
 
 
+/-- neither result contains (or equals) the other -/
+def NoNesting (a b : MR) : Prop :=
+  ¬ (b.start ≤ a.start ∧ b.stop ≥ a.stop) ∧ ¬ (a.start ≤ b.start ∧ a.stop ≥ b.stop)
+
+theorem nwuAddSym_pairwise (acc : List MR) (m : MR) (h : acc.Pairwise NoNesting) : (nwuAddSym acc m).Pairwise NoNesting := by
+  unfold nwuAddSym
+  split
+  · rename_i hb
+    unfold bAddSym at hb
+    simp only [Bool.not_eq_true', List.any_eq_false, Bool.or_eq_true, Bool.and_eq_true, decide_eq_true_eq, not_or] at hb
+    rw [List.pairwise_append]
+    refine ⟨h, by simp, ?_⟩
+    intro a ha b hb'
+    simp only [List.mem_singleton] at hb'
+    subst hb'
+    exact hb a ha
+  · exact h
+
+theorem nwuParseGoSym_pairwise (items : List (List MR)) :
+    ∀ prs acc, acc.Pairwise NoNesting → (nwuParseGoSym items prs acc).Pairwise NoNesting := by
+  induction items with
+  | nil => intro prs acc h; exact h
+  | cons it rest ih =>
+    intro prs acc h
+    apply ih
+    have : ∀ (l : List MR) (acc : List MR), acc.Pairwise NoNesting → (l.foldl nwuAddSym acc).Pairwise NoNesting := by
+      intro l
+      induction l with
+      | nil => intro acc h; exact h
+      | cons m r ih2 => intro acc h; exact ih2 _ (nwuAddSym_pairwise acc m h)
+    exact this _ _ h
+
 /-! ## percentage: position map -/
 
 theorem maskGo_spec (own : Nat → Option Nat) (tok : Str) (n : Nat) :
